@@ -87,8 +87,10 @@ static void* POOL_thread(void* opaque) {
             ctx->queueHead = (ctx->queueHead + 1) % ctx->queueSize;
             ctx->numThreadsBusy++;
             ctx->queueEmpty = (ctx->queueHead == ctx->queueTail);
-            /* Unlock the mutex, signal a pusher, and run the job */
-            ZSTD_pthread_cond_signal(&ctx->queuePushCond);
+            /* Unlock the mutex, wake the pushers, and run the job.
+             * queuePushCond is shared by POOL_add() and POOL_joinJobs(), which wait for
+             * different conditions : waking a single waiter can wake the wrong one */
+            ZSTD_pthread_cond_broadcast(&ctx->queuePushCond);
             ZSTD_pthread_mutex_unlock(&ctx->queueMutex);
 
             job.function(job.opaque);
@@ -96,7 +98,7 @@ static void* POOL_thread(void* opaque) {
             /* If the intended queue size was 0, signal after finishing job */
             ZSTD_pthread_mutex_lock(&ctx->queueMutex);
             ctx->numThreadsBusy--;
-            ZSTD_pthread_cond_signal(&ctx->queuePushCond);
+            ZSTD_pthread_cond_broadcast(&ctx->queuePushCond);
             ZSTD_pthread_mutex_unlock(&ctx->queueMutex);
         }
     }  /* for (;;) */
@@ -248,6 +250,7 @@ int POOL_resize(POOL_ctx* ctx, size_t numThreads)
     ZSTD_pthread_mutex_lock(&ctx->queueMutex);
     result = POOL_resize_internal(ctx, numThreads);
     ZSTD_pthread_cond_broadcast(&ctx->queuePopCond);
+    ZSTD_pthread_cond_broadcast(&ctx->queuePushCond);   /* a larger limit is room for a blocked POOL_add() */
     ZSTD_pthread_mutex_unlock(&ctx->queueMutex);
     return result;
 }
